@@ -559,6 +559,6 @@ def run(ctx):
     r_operand_access(ctx)
     r_none(ctx)
     no = r_options(ctx)
-    ctx.floor("except clauses", ne, 4)
+    ctx.floor("except clauses", ne, 2)
     ctx.floor("accessors", na, 6)
-    ctx.floor("string-option dispatches", no, 6)
+    ctx.floor("string-option dispatches", no, 4)
